@@ -106,6 +106,56 @@ static char** read_vector(char* tok, int* countOut) {
 #define A(i) (a[i])
 #define CALL(name, expr) if (strcmp(fn, #name) == 0) { r = unstable ? wasi_unstable__##expr : wasi_snapshot_preview1__##expr; known = 1; }
 
+/* one WASI call by name; *knownOut = 0 when the name is not one the agent can call */
+static U32 do_call(const char* fn, int unstable, const U64* a, int* knownOut) {
+    U32 r = 0xdead; int known = 0;
+    CALL(fd_write, fd_write(NULL, (U32)A(0), (U32)A(1), (U32)A(2), (U32)A(3)))
+    CALL(fd_read, fd_read(NULL, (U32)A(0), (U32)A(1), (U32)A(2), (U32)A(3)))
+    CALL(fd_pwrite, fd_pwrite(NULL, (U32)A(0), (U32)A(1), (U32)A(2), A(3), (U32)A(4)))
+    CALL(fd_pread, fd_pread(NULL, (U32)A(0), (U32)A(1), (U32)A(2), A(3), (U32)A(4)))
+    CALL(fd_seek, fd_seek(NULL, (U32)A(0), A(1), (U32)A(2), (U32)A(3)))
+    CALL(fd_tell, fd_tell(NULL, (U32)A(0), (U32)A(1)))
+    CALL(fd_close, fd_close(NULL, (U32)A(0)))
+    CALL(fd_filestat_get, fd_filestat_get(NULL, (U32)A(0), (U32)A(1)))
+    CALL(fd_fdstat_get, fd_fdstat_get(NULL, (U32)A(0), (U32)A(1)))
+    CALL(fd_prestat_get, fd_prestat_get(NULL, (U32)A(0), (U32)A(1)))
+    CALL(fd_prestat_dir_name, fd_prestat_dir_name(NULL, (U32)A(0), (U32)A(1), (U32)A(2)))
+    CALL(fd_readdir, fd_readdir(NULL, (U32)A(0), (U32)A(1), (U32)A(2), A(3), (U32)A(4)))
+    CALL(fd_sync, fd_sync(NULL, (U32)A(0)))
+    CALL(fd_datasync, fd_datasync(NULL, (U32)A(0)))
+    CALL(path_open, path_open(NULL, (U32)A(0), (U32)A(1), (U32)A(2), (U32)A(3), (U32)A(4), A(5), A(6), (U32)A(7), (U32)A(8)))
+    CALL(path_filestat_get, path_filestat_get(NULL, (U32)A(0), (U32)A(1), (U32)A(2), (U32)A(3), (U32)A(4)))
+    CALL(path_create_directory, path_create_directory(NULL, (U32)A(0), (U32)A(1), (U32)A(2)))
+    CALL(path_remove_directory, path_remove_directory(NULL, (U32)A(0), (U32)A(1), (U32)A(2)))
+    CALL(path_unlink_file, path_unlink_file(NULL, (U32)A(0), (U32)A(1), (U32)A(2)))
+    CALL(path_rename, path_rename(NULL, (U32)A(0), (U32)A(1), (U32)A(2), (U32)A(3), (U32)A(4), (U32)A(5)))
+    CALL(path_symlink, path_symlink(NULL, (U32)A(0), (U32)A(1), (U32)A(2), (U32)A(3), (U32)A(4)))
+    CALL(path_readlink, path_readlink(NULL, (U32)A(0), (U32)A(1), (U32)A(2), (U32)A(3), (U32)A(4), (U32)A(5)))
+    CALL(args_sizes_get, args_sizes_get(NULL, (U32)A(0), (U32)A(1)))
+    CALL(args_get, args_get(NULL, (U32)A(0), (U32)A(1)))
+    CALL(environ_sizes_get, environ_sizes_get(NULL, (U32)A(0), (U32)A(1)))
+    CALL(environ_get, environ_get(NULL, (U32)A(0), (U32)A(1)))
+    CALL(clock_time_get, clock_time_get(NULL, (U32)A(0), A(1), (U32)A(2)))
+    CALL(clock_res_get, clock_res_get(NULL, (U32)A(0), (U32)A(1)))
+    CALL(random_get, random_get(NULL, (U32)A(0), (U32)A(1)))
+    *knownOut = known;
+    return r;
+}
+
+/* "par <K> { T <ncalls> { <fn> <unstable> <nargs> <args...> } }": K threads start together (barrier) and each runs its own list of
+ * WASI calls; answer "par r r r / r r r / ..." (return codes per thread, in call order).  A host with wasi-threads issues WASI calls
+ * from several threads at once; scripts that work on disjoint directories and disjoint guest memory must give the results of
+ * running them one after the other. */
+typedef struct { char fn[40]; int unstable; U64 a[12]; U32 r; } PCall;
+typedef struct { PCall* calls; int n; } PScript;
+static pthread_barrier_t g_bar;
+static void* par_thread(void* p) {
+    PScript* s = (PScript*)p; int i, known;
+    pthread_barrier_wait(&g_bar);
+    for (i = 0; i < s->n; i++) s->calls[i].r = do_call(s->calls[i].fn, s->calls[i].unstable, s->calls[i].a, &known);
+    return NULL;
+}
+
 int main(int argc, char** argv) {
     static char line[1 << 22];
     int cin = argc > 1 ? atoi(argv[1]) : 10, cout = argc > 2 ? atoi(argv[2]) : 11;
@@ -168,6 +218,33 @@ int main(int argc, char** argv) {
             struct timespec ts; int id = atoi(strtok(NULL, " \n"));
             clock_gettime(id == 0 ? CLOCK_REALTIME : id == 1 ? CLOCK_MONOTONIC : id == 2 ? CLOCK_PROCESS_CPUTIME_ID : CLOCK_THREAD_CPUTIME_ID, &ts);
             fprintf(out, "now %lld\n", (long long)ts.tv_sec * 1000000000LL + ts.tv_nsec);
+        } else if (strcmp(cmd, "par") == 0) {
+            int K = atoi(strtok(NULL, " \n")), k, i, j; PScript* sc = (PScript*)calloc((size_t)K, sizeof(PScript));
+            pthread_t* th = (pthread_t*)calloc((size_t)K, sizeof(pthread_t));
+            for (k = 0; k < K; k++) {
+                strtok(NULL, " \n");                                   /* "T" */
+                sc[k].n = atoi(strtok(NULL, " \n"));
+                sc[k].calls = (PCall*)calloc((size_t)sc[k].n + 1, sizeof(PCall));
+                for (i = 0; i < sc[k].n; i++) {
+                    int na;
+                    strncpy(sc[k].calls[i].fn, strtok(NULL, " \n"), 39);
+                    sc[k].calls[i].unstable = atoi(strtok(NULL, " \n"));
+                    na = atoi(strtok(NULL, " \n"));
+                    for (j = 0; j < na && j < 12; j++) sc[k].calls[i].a[j] = strtoull(strtok(NULL, " \n"), NULL, 10);
+                }
+            }
+            pthread_barrier_init(&g_bar, NULL, (unsigned)K);
+            for (k = 0; k < K; k++) pthread_create(&th[k], NULL, par_thread, &sc[k]);
+            for (k = 0; k < K; k++) pthread_join(th[k], NULL);
+            pthread_barrier_destroy(&g_bar);
+            fprintf(out, "par");
+            for (k = 0; k < K; k++) {
+                for (i = 0; i < sc[k].n; i++) fprintf(out, " %u", sc[k].calls[i].r);
+                if (k + 1 < K) fprintf(out, " /");
+                free(sc[k].calls);
+            }
+            fprintf(out, "\n");
+            free(sc); free(th);
         } else if (strcmp(cmd, "res") == 0) {
             struct timespec ts; int id = atoi(strtok(NULL, " \n"));
             clock_getres(id == 0 ? CLOCK_REALTIME : id == 1 ? CLOCK_MONOTONIC : id == 2 ? CLOCK_PROCESS_CPUTIME_ID : CLOCK_THREAD_CPUTIME_ID, &ts);
@@ -176,35 +253,7 @@ int main(int argc, char** argv) {
             char* fn = strtok(NULL, " \n"); int unstable = atoi(strtok(NULL, " \n")); U64 a[12]; int n = 0, known = 0; U32 r = 0xdead; char* t;
             while ((t = strtok(NULL, " \n")) && n < 12) a[n++] = strtoull(t, NULL, 10);
             if (g_storm_usec > 0) storm(1);
-            CALL(fd_write, fd_write(NULL, (U32)A(0), (U32)A(1), (U32)A(2), (U32)A(3)))
-            CALL(fd_read, fd_read(NULL, (U32)A(0), (U32)A(1), (U32)A(2), (U32)A(3)))
-            CALL(fd_pwrite, fd_pwrite(NULL, (U32)A(0), (U32)A(1), (U32)A(2), A(3), (U32)A(4)))
-            CALL(fd_pread, fd_pread(NULL, (U32)A(0), (U32)A(1), (U32)A(2), A(3), (U32)A(4)))
-            CALL(fd_seek, fd_seek(NULL, (U32)A(0), A(1), (U32)A(2), (U32)A(3)))
-            CALL(fd_tell, fd_tell(NULL, (U32)A(0), (U32)A(1)))
-            CALL(fd_close, fd_close(NULL, (U32)A(0)))
-            CALL(fd_filestat_get, fd_filestat_get(NULL, (U32)A(0), (U32)A(1)))
-            CALL(fd_fdstat_get, fd_fdstat_get(NULL, (U32)A(0), (U32)A(1)))
-            CALL(fd_prestat_get, fd_prestat_get(NULL, (U32)A(0), (U32)A(1)))
-            CALL(fd_prestat_dir_name, fd_prestat_dir_name(NULL, (U32)A(0), (U32)A(1), (U32)A(2)))
-            CALL(fd_readdir, fd_readdir(NULL, (U32)A(0), (U32)A(1), (U32)A(2), A(3), (U32)A(4)))
-            CALL(fd_sync, fd_sync(NULL, (U32)A(0)))
-            CALL(fd_datasync, fd_datasync(NULL, (U32)A(0)))
-            CALL(path_open, path_open(NULL, (U32)A(0), (U32)A(1), (U32)A(2), (U32)A(3), (U32)A(4), A(5), A(6), (U32)A(7), (U32)A(8)))
-            CALL(path_filestat_get, path_filestat_get(NULL, (U32)A(0), (U32)A(1), (U32)A(2), (U32)A(3), (U32)A(4)))
-            CALL(path_create_directory, path_create_directory(NULL, (U32)A(0), (U32)A(1), (U32)A(2)))
-            CALL(path_remove_directory, path_remove_directory(NULL, (U32)A(0), (U32)A(1), (U32)A(2)))
-            CALL(path_unlink_file, path_unlink_file(NULL, (U32)A(0), (U32)A(1), (U32)A(2)))
-            CALL(path_rename, path_rename(NULL, (U32)A(0), (U32)A(1), (U32)A(2), (U32)A(3), (U32)A(4), (U32)A(5)))
-            CALL(path_symlink, path_symlink(NULL, (U32)A(0), (U32)A(1), (U32)A(2), (U32)A(3), (U32)A(4)))
-            CALL(path_readlink, path_readlink(NULL, (U32)A(0), (U32)A(1), (U32)A(2), (U32)A(3), (U32)A(4), (U32)A(5)))
-            CALL(args_sizes_get, args_sizes_get(NULL, (U32)A(0), (U32)A(1)))
-            CALL(args_get, args_get(NULL, (U32)A(0), (U32)A(1)))
-            CALL(environ_sizes_get, environ_sizes_get(NULL, (U32)A(0), (U32)A(1)))
-            CALL(environ_get, environ_get(NULL, (U32)A(0), (U32)A(1)))
-            CALL(clock_time_get, clock_time_get(NULL, (U32)A(0), A(1), (U32)A(2)))
-            CALL(clock_res_get, clock_res_get(NULL, (U32)A(0), (U32)A(1)))
-            CALL(random_get, random_get(NULL, (U32)A(0), (U32)A(1)))
+            r = do_call(fn, unstable, a, &known);
             if (g_storm_usec > 0) storm(0);
             if (strcmp(fn, "proc_exit") == 0) {
                 fflush(out);
